@@ -23,10 +23,17 @@ import (
 )
 
 // Binding of spec/Sharding.tla (C17): one real DeterministicSharder and two
-// real Routers (incoming / peer listener) per node of the model's peer set,
-// every node seeing the same addresses in its own order. Forwarded events are
-// carried by the harness from the forwarding node's peer transmission to the
-// peer listener of the node whose address they bear.
+// real Routers (incoming / peer listener) per node of the model's live set.
+// Every node has its own peer source (peer.MockPeers); the model's Start and
+// Learn actions hand it a peer LIST - a multiset of addresses (an address may
+// be listed twice, addresses of dead peers may be listed) in one of three
+// orders - at start-up and through the registered change callback, exactly as
+// FilePeers / RedisPubsubPeers do. After every such step each node's sharder is
+// compared, on a seeded stream of trace ids, with a reference node: a sharder
+// started right now on the list the node currently sees ("a node that sees the
+// same list"), and with every other node that currently sees the same list.
+// Forwarded events are carried by the harness from the forwarding node's peer
+// transmission to the peer listener of the node whose address they bear.
 
 type c17Tx struct {
 	mu  sync.Mutex
@@ -35,7 +42,7 @@ type c17Tx struct {
 
 func (x *c17Tx) EnqueueEvent(ev *types.Event) { x.mu.Lock(); x.evs = append(x.evs, ev); x.mu.Unlock() }
 func (x *c17Tx) EnqueueSpan(sp *types.Span)   { x.EnqueueEvent(sp.Event) }
-func (x *c17Tx) RegisterMetrics()            {}
+func (x *c17Tx) RegisterMetrics()             {}
 func (x *c17Tx) take() []*types.Event {
 	x.mu.Lock()
 	defer x.mu.Unlock()
@@ -46,6 +53,7 @@ func (x *c17Tx) take() []*types.Event {
 
 type c17Node struct {
 	addr   string
+	mp     *peer.MockPeers
 	sh     *sharder.DeterministicSharder
 	in, pr *Router
 	coll   *collect.MockCollector
@@ -53,102 +61,153 @@ type c17Node struct {
 }
 
 type c17Harness struct {
-	nodes   map[string]*c17Node
-	order   []string
-	landed  map[string]map[string]bool
-	count   map[string]int
-	hops    int
-	selfFwd int
-	outside int
-	agree   bool
-	seed    int64
+	universe []string // sorted
+	set      []string // the live set S, sorted
+	conf     *config.MockConfig
+	nodes    map[string]*c17Node // by URL; only started nodes
+	landed   map[string]map[string]bool
+	count    map[string]int
+	hops     int
+	selfFwd  int
+	outside  int
+	stale    map[string]bool
+	strayed  map[string]bool
+	agree    bool
+	panicMsg string
+	seed     int64
+	rng      *rand.Rand
 }
+
+const c17Probes = 160
 
 func c17URL(a string) string { return "http://" + a }
 
-func slicesContains(l []string, x string) bool {
-	for _, y := range l {
-		if y == x {
-			return true
+func (h *c17Harness) Reset(init map[string]any) error {
+	h.universe, h.set = nil, nil
+	if p, ok := init["params"].(map[string]any); ok {
+		for _, a := range p["universe"].([]any) {
+			h.universe = append(h.universe, a.(string))
 		}
 	}
-	return false
+	if len(h.universe) == 0 {
+		return fmt.Errorf("no universe in the graph parameters")
+	}
+	sort.Strings(h.universe)
+	for _, a := range init["S"].([]any) {
+		h.set = append(h.set, a.(string))
+	}
+	sort.Strings(h.set)
+	h.nodes = map[string]*c17Node{}
+	h.landed, h.count = map[string]map[string]bool{}, map[string]int{}
+	h.hops, h.selfFwd, h.outside, h.agree, h.panicMsg = 0, 0, 0, true, ""
+	h.stale, h.strayed = map[string]bool{}, map[string]bool{}
+	h.conf = &config.MockConfig{TraceIdFieldNames: []string{"trace.trace_id"}, ParentIdFieldNames: []string{"trace.parent_id"}}
+	h.rng = rand.New(rand.NewSource(h.seed)) // the probe ids of a walk depend on the seed and the position in the walk only
+	return nil
 }
 
-func (h *c17Harness) Reset(init map[string]any) error {
-	var set []string
-	for _, a := range init["S"].([]any) {
-		set = append(set, a.(string))
-	}
-	sort.Strings(set)
-	view, _ := init["view"].(map[string]any)
-	hist, _ := init["hist"].(map[string]any)
-	universe := []string{"a:1", "b:1", "c:1", "d:1", "e:1", "f:1"}
-	h.nodes, h.order = map[string]*c17Node{}, set
-	h.landed, h.count = map[string]map[string]bool{}, map[string]int{}
-	h.hops, h.selfFwd, h.outside, h.agree = 0, 0, 0, true
-	conf := &config.MockConfig{TraceIdFieldNames: []string{"trace.trace_id"}, ParentIdFieldNames: []string{"trace.parent_id"}}
-	for _, a := range set {
-		list := make([]string, len(set))
-		for i, x := range set {
-			list[i] = c17URL(x)
+// c17List turns the model's multiset (address -> multiplicity) into the list a peer source would return, in the given order.
+func (h *c17Harness) c17List(m map[string]any, view string) []string {
+	var firsts, extras []string
+	for _, a := range h.universe {
+		k := verifkit.Int(m, a)
+		if k > 0 {
+			firsts = append(firsts, c17URL(a))
 		}
-		switch view[a] {
-		case "reversed":
+		for i := 1; i < k; i++ {
+			extras = append(extras, c17URL(a))
+		}
+	}
+	var list []string
+	switch view {
+	case "rotated": // distinct addresses rotated by one, the repeated entries at the end (where FilePeers puts the node's own address)
+		if len(firsts) > 1 {
+			firsts = append(firsts[1:], firsts[0])
+		}
+		list = append(firsts, extras...)
+	default: // "sorted" (what RedisPubsubPeers returns: repeated entries adjacent), "reversed"
+		list = append(firsts, extras...)
+		sort.Strings(list)
+		if view == "reversed" {
 			for i, j := 0, len(list)-1; i < j; i, j = i+1, j-1 {
 				list[i], list[j] = list[j], list[i]
 			}
-		case "rotated":
-			list = append(list[1:], list[0])
 		}
-		// the list this node saw BEFORE it learned the current one (membership history)
-		first := list
-		switch hist[a] {
-		case "grew":
-			first = []string{c17URL(a)}
-		case "shrank":
-			first = nil
-			for _, x := range universe {
-				first = append(first, c17URL(x))
-			}
-			if !slicesContains(first, c17URL(a)) {
-				first = append(first, c17URL(a))
-			}
+	}
+	return list
+}
+
+func (h *c17Harness) start(a string, list []string) error {
+	mp := peer.NewMockPeers(list, c17URL(a))
+	sh := &sharder.DeterministicSharder{Config: h.conf, Logger: &logger.NullLogger{}, Peers: mp}
+	if err := sh.Start(); err != nil {
+		return err
+	}
+	met := &metrics.MockMetrics{}
+	met.Start()
+	n := &c17Node{addr: c17URL(a), mp: mp, sh: sh, coll: collect.NewMockCollector(), peerTx: &c17Tx{}}
+	mk := func(rt types.RouterType) *Router {
+		r := &Router{Config: h.conf, Logger: &logger.NullLogger{}, Metrics: met, UpstreamTransmission: &c17Tx{}, PeerTransmission: n.peerTx,
+			Collector: n.coll, Sharder: sh, routerType: rt, iopLogger: iopLogger{Logger: &logger.NullLogger{}, incomingOrPeer: rt.String()}}
+		r.registerMetricNames()
+		return r
+	}
+	n.in, n.pr = mk(types.RouterTypeIncoming), mk(types.RouterTypePeer)
+	h.nodes[n.addr] = n
+	return nil
+}
+
+func c17Key(list []string) string {
+	l := append([]string(nil), list...)
+	sort.Strings(l)
+	return fmt.Sprint(l)
+}
+
+// probe compares, on fresh seeded trace ids, every started node's sharder with (i) a sharder started now on the
+// list the node currently sees, (ii) the nodes that currently see the same list, (iii) that list itself.
+func (h *c17Harness) probe() error {
+	h.agree = true
+	h.stale, h.strayed = map[string]bool{}, map[string]bool{}
+	type view struct {
+		n    *c17Node
+		ref  *sharder.DeterministicSharder
+		key  string
+		have map[string]bool
+	}
+	var vs []view
+	for _, a := range h.set {
+		n, ok := h.nodes[c17URL(a)]
+		if !ok {
+			continue
 		}
-		mp := peer.NewMockPeers(first, c17URL(a))
-		sh := &sharder.DeterministicSharder{Config: conf, Logger: &logger.NullLogger{}, Peers: mp}
-		if err := sh.Start(); err != nil {
+		list, _ := n.mp.GetPeers()
+		sorted := append([]string(nil), list...)
+		sort.Strings(sorted)
+		ref := &sharder.DeterministicSharder{Config: h.conf, Logger: &logger.NullLogger{}, Peers: peer.NewMockPeers(sorted, n.addr)}
+		if err := ref.Start(); err != nil {
 			return err
 		}
-		if hist[a] == "grew" || hist[a] == "shrank" {
-			mp.UpdatePeers(list) // fires the sharder's reload callback synchronously
+		v := view{n: n, ref: ref, key: c17Key(list), have: map[string]bool{}}
+		for _, x := range list {
+			v.have[x] = true
 		}
-		met := &metrics.MockMetrics{}
-		met.Start()
-		n := &c17Node{addr: c17URL(a), sh: sh, coll: collect.NewMockCollector(), peerTx: &c17Tx{}}
-		mk := func(rt types.RouterType) *Router {
-			r := &Router{Config: conf, Logger: &logger.NullLogger{}, Metrics: met, UpstreamTransmission: &c17Tx{}, PeerTransmission: n.peerTx,
-				Collector: n.coll, Sharder: sh, routerType: rt, iopLogger: iopLogger{Logger: &logger.NullLogger{}, incomingOrPeer: rt.String()}}
-			r.registerMetricNames()
-			return r
-		}
-		n.in, n.pr = mk(types.RouterTypeIncoming), mk(types.RouterTypePeer)
-		h.nodes[n.addr] = n
+		vs = append(vs, v)
 	}
-	// ownership agreement on a seeded stream of trace ids: same owner from every node, owner in the set
-	rng := rand.New(rand.NewSource(h.seed))
-	for k := 0; k < 300; k++ {
-		id := fmt.Sprintf("%016x%016x", rng.Uint64(), rng.Uint64())
-		owner := ""
-		for _, n := range h.nodes {
-			o := n.sh.WhichShard(id).GetAddress()
-			if _, ok := h.nodes[o]; !ok {
-				h.agree = false
+	for k := 0; k < c17Probes; k++ {
+		id := fmt.Sprintf("%016x%016x", h.rng.Uint64(), h.rng.Uint64())
+		owners := make([]string, len(vs))
+		for i, v := range vs {
+			owners[i] = v.n.sh.WhichShard(id).GetAddress()
+			if owners[i] != v.ref.WhichShard(id).GetAddress() {
+				h.stale[v.n.addr] = true
 			}
-			if owner == "" {
-				owner = o
-			} else if o != owner {
-				h.agree = false
+			if !v.have[owners[i]] {
+				h.strayed[v.n.addr] = true
+			}
+			for j := 0; j < i; j++ {
+				if vs[j].key == v.key && owners[j] != owners[i] {
+					h.agree = false
+				}
 			}
 		}
 	}
@@ -171,12 +230,40 @@ func (h *c17Harness) drain(n *c17Node, t string) {
 	}
 }
 
-func (h *c17Harness) Apply(a map[string]any) error {
-	if verifkit.Str(a, "name") != "Send" {
-		return fmt.Errorf("unknown action %v", a)
+func (h *c17Harness) Apply(a map[string]any) (err error) {
+	defer func() {
+		if r := recover(); r != nil {
+			h.panicMsg = fmt.Sprint(r)
+			err = nil
+		}
+	}()
+	switch verifkit.Str(a, "name") {
+	case "Start":
+		list, _ := a["list"].(map[string]any)
+		if err := h.start(verifkit.Str(a, "n"), h.c17List(list, verifkit.Str(a, "view"))); err != nil {
+			return err
+		}
+		return h.probe()
+	case "Learn":
+		n := h.nodes[c17URL(verifkit.Str(a, "n"))]
+		if n == nil {
+			return fmt.Errorf("Learn on a node that was not started: %v", a)
+		}
+		list, _ := a["list"].(map[string]any)
+		n.mp.UpdatePeers(h.c17List(list, verifkit.Str(a, "view"))) // fires the sharder's reload callback synchronously
+		return h.probe()
+	case "Send":
+		return h.send(a)
 	}
+	return fmt.Errorf("unknown action %v", a)
+}
+
+func (h *c17Harness) send(a map[string]any) error {
 	t := verifkit.Str(a, "t")
 	entry := h.nodes[c17URL(verifkit.Str(a, "n"))]
+	if entry == nil {
+		return fmt.Errorf("Send into a node that was not started: %v", a)
+	}
 	ev := &types.Event{Context: context.Background(), APIHost: "http://honeycomb.invalid", APIKey: "k", Dataset: "d",
 		Data: types.NewPayload(entry.in.Config, map[string]any{"trace.trace_id": "trace-" + t + "-" + strconv.FormatInt(h.seed, 10), "f": 1})}
 	if err := entry.in.processEvent(ev, "req"); err != nil {
@@ -215,13 +302,66 @@ func (h *c17Harness) Apply(a map[string]any) error {
 	return nil
 }
 
+func c17Sorted(m map[string]bool) []string {
+	out := []string{}
+	for a := range m {
+		out = append(out, a[len("http://"):])
+	}
+	sort.Strings(out)
+	return out
+}
+
 func (h *c17Harness) Project() (any, error) {
 	lc, cnt := map[string]int{}, map[string]int{}
 	for _, t := range []string{"t1", "t2"} {
 		lc[t] = len(h.landed[t])
 		cnt[t] = h.count[t]
 	}
-	return map[string]any{"landedCount": lc, "count": cnt, "hops": h.hops, "selfFwd": h.selfFwd, "outside": h.outside, "agree": h.agree}, nil
+	// what every node's peer source returns now, as multiplicities; stable = all started, all see the same list, it names exactly S
+	cur := map[string]map[string]int{}
+	stable := true
+	first := ""
+	for _, a := range h.set {
+		c := map[string]int{}
+		for _, x := range h.universe {
+			c[x] = 0
+		}
+		n, ok := h.nodes[c17URL(a)]
+		if !ok {
+			stable = false
+		} else {
+			list, _ := n.mp.GetPeers()
+			for _, x := range list {
+				c[x[len("http://"):]]++
+			}
+			if first == "" {
+				first = c17Key(list)
+			} else if c17Key(list) != first {
+				stable = false
+			}
+			for _, x := range h.universe {
+				if (c[x] > 0) != slicesContains(h.set, x) {
+					stable = false
+				}
+			}
+		}
+		cur[a] = c
+	}
+	out := map[string]any{"cur": cur, "stable": stable, "staleSet": c17Sorted(h.stale), "strayedSet": c17Sorted(h.strayed), "agree": h.agree,
+		"landedCount": lc, "count": cnt, "hops": h.hops, "selfFwd": h.selfFwd, "outside": h.outside}
+	if h.panicMsg != "" {
+		out["panic"] = h.panicMsg
+	}
+	return out, nil
+}
+
+func slicesContains(l []string, x string) bool {
+	for _, y := range l {
+		if y == x {
+			return true
+		}
+	}
+	return false
 }
 
 func TestVerifSharding(t *testing.T) {
